@@ -27,3 +27,5 @@ func (m *Manager) VerifReadIntoTable(id uint64, reader io.Reader) error {
 func VerifDiffTables(tables map[string]Table, raftInfo []dragonboat.ShardInfo) (map[uint64]Table, []uint64) {
 	return diffTables(tables, raftInfo)
 }
+
+func (m *Manager) VerifReconcile() error { return m.reconcile() }
